@@ -20,6 +20,8 @@ type splitEntry struct {
 }
 
 type splitProject struct {
+	blanks bool // pieces without any directive (empty files, files of blanks and line ends) are included next to the real ones
+	nBlank int
 	files   map[string][]splitEntry
 	content map[string][]byte
 	where   map[int][2]interface{} // original line -> (file, new line)
@@ -119,6 +121,7 @@ func makeSplit(d *lexDoc, r *rand.Rand, cuts []cutPoint, maxDepth int, single in
 	}
 	root := &lineRange{from: 0, to: nLines, name: "root.jst"}
 	sp := &splitProject{files: map[string][]splitEntry{}, content: map[string][]byte{}, where: map[int][2]interface{}{}}
+	sp.blanks = r.Intn(3) == 0
 	n := 0
 	var carve func(parent *lineRange, level int)
 	carve = func(parent *lineRange, level int) {
@@ -246,6 +249,7 @@ func makeChainSplit(d *lexDoc, r *rand.Rand, cuts []cutPoint, depth int) *splitP
 	pick := r.Perm(len(ok))[:depth]
 	sort.Ints(pick)
 	sp := &splitProject{files: map[string][]splitEntry{}, content: map[string][]byte{}, where: map[int][2]interface{}{}, depth: depth}
+	sp.blanks = depth <= 17 && r.Intn(2) == 0
 	root := &lineRange{from: 0, to: nLines, name: "root.jst"}
 	parent := root
 	for i, pi := range pick {
@@ -285,6 +289,25 @@ func finishSplit(d *lexDoc, root *lineRange, sp *splitProject) *splitProject {
 				rel := k.name
 				if dir := filepath.Dir(rg.name); dir != "." {
 					rel = strings.TrimPrefix(k.name, dir+"/")
+				}
+				if sp.blanks {
+					// the document cut twice at the same boundary: a piece that holds nothing, before the real one (and sometimes
+					// after it as well - the INCLUDE that follows a blank piece is where a stale scanner stack shows)
+					blank := func() {
+						sp.nBlank++
+						bn := fmt.Sprintf("blank%d.jst", sp.nBlank)
+						if dir := filepath.Dir(rg.name); dir != "." {
+							sp.content[dir+"/"+bn] = []byte([]string{"", "\n", "  \n\n", "\t \n", "\r\n"}[sp.nBlank%5])
+						} else {
+							sp.content[bn] = []byte([]string{"", "\n", "  \n\n", "\t \n", "\r\n"}[sp.nBlank%5])
+						}
+						newLine++
+						sb.WriteString("INCLUDE " + bn + "\n")
+					}
+					blank()
+					if sp.nBlank%3 == 0 {
+						blank()
+					}
 				}
 				newLine++
 				sb.WriteString("INCLUDE " + rel + "\n")
@@ -531,6 +554,10 @@ func C09(c *fw.Ctx) {
 			c.Inc("cut_point_kinds", k, 1)
 		}
 		c.Inc("include_depth", fmt.Sprint(sp.depth), 1)
+		if sp.nBlank > 0 {
+			c.Inc("blank_pieces", "projects_with_blank_pieces", 1)
+			c.Inc("blank_pieces", "blank_pieces", sp.nBlank)
+		}
 		rp := &fw.Replay{Jobs: []*proto.Job{{ID: "original", Root: "root.jst", Files: map[string][]byte{"root.jst": d.content}, Ops: []string{"json"}}, j},
 			Results: []interface{}{base, res}, Expected: map[string]interface{}{"document": d.name, "files": filesAsStrings(sp.content)}}
 		if sig, what := crashSig(res); sig != "" {
